@@ -193,6 +193,80 @@ def run(prog, ctx):
     ctx.touch(gc)
     _check_stencil(prog, ctx, gc)
 
+    # ------------------------------------------------------------------ D7 enumeration precondition
+    _check_getgrids_sites(prog, ctx, cs)
+
+
+def _check_getgrids_sites(prog, ctx, cs):
+    """D7: getGrids(dim, n) enumerates the level vectors with entries >= 1 and sum-like budget n; it is meaningful only for
+    n >= 1 (getGrids(1, 0) returns the level-0 vector [[0]], getGrids(d>1, 0) returns nothing).  Every call site must pass
+    a budget whose minimum over the enclosing loop ranges is >= 1, given lmax >= lmin (asserted by the initialisers)."""
+    from ..absint import poly_of_term, Poly
+    n = 0
+    for name, fi in sorted(cs.methods.items()):
+        tm = Terms(fi.node, max_depth=0)
+        for call in [x for x in ast.walk(fi.node) if isinstance(x, ast.Call)]:
+            f = call.func
+            if not (isinstance(f, ast.Attribute) and f.attr == "getGrids" and len(call.args) == 2):
+                continue
+            n += 1
+            ctx.touch(fi)
+            p = poly_of_term(tm.term(call.args[1]))
+            # loop variables (for statements and comprehensions) enclosing the call
+            binders = []
+            node = getattr(call, "_parent", None)
+            while node is not None and node is not fi.node:
+                if isinstance(node, ast.For) and isinstance(node.target, ast.Name):
+                    binders.append((node.target.id, node.iter))
+                if isinstance(node, (ast.ListComp, ast.GeneratorExp, ast.SetComp)):
+                    for g in node.generators:
+                        if isinstance(g.target, ast.Name):
+                            binders.append((g.target.id, g.iter))
+                node = getattr(node, "_parent", None)
+            candidates = [p]
+            for (var, it) in binders:
+                atom = ("n", var)
+                nxt = []
+                for q in candidates:
+                    coef = sum(v for k, v in q.terms.items() if k == ((atom, 1),))
+                    if coef == 0:
+                        nxt.append(q)
+                        continue
+                    t = tm.term(it)
+                    if not (t[0] == "call" and t[1] == ("n", "range") and 1 <= len(t[2]) <= 2):
+                        continue
+                    lo = poly_of_term(t[2][0]) if len(t[2]) == 2 else Poly.const(0)
+                    hi_t = t[2][-1]
+                    his = [hi_t] if not (hi_t[0] == "call" and hi_t[1] == ("n", "min")) else list(hi_t[2])
+                    rest = Poly({k: v for k, v in q.terms.items() if k != ((atom, 1),)})
+                    for h in his:
+                        bound = (poly_of_term(h) - Poly.const(1)) if coef < 0 else lo
+                        nxt.append(rest + bound * Poly.const(coef))
+                candidates = nxt
+            ok = False
+            shown = []
+            for q in candidates:
+                shown.append(repr(q))
+                const = q.terms.get((), 0)
+                others = {k: v for k, v in q.terms.items() if k != ()}
+                lmx, lmn = ((("n", "lmax"), 1),), ((("n", "lmin"), 1),)
+                if not others and const >= 1:
+                    ok = True
+                elif set(others) == {lmx, lmn} and others[lmx] == -others[lmn] and others[lmx] > 0 and const >= 1:
+                    ok = True
+            key = R.key_of(fi, "getGrids-budget#%d" % sum(1 for i in ctx.instances if i.rule == "C01.D7" and i.key.startswith(fi.qual)))
+            ctx.check(ok, "C01.D7", key, fi.loc(call),
+                      "the enumeration budget `%s` is >= 1 over the enclosing loop ranges (minimum %s, given lmax >= lmin)" % (src(call.args[1]), shown[:2]),
+                      "`%s` can be called with a budget < 1 (minimum over the loop ranges: %s): getGrids(1, 0) yields the level vector [0], "
+                      "an index below the minimum level enters the set in one dimension" % (src(call), shown[:2]))
+    ctx.floor("C01.D7", n, 4, "getGrids call sites")
+    # the axiom lmax >= lmin is asserted by both public initialisers, which hand their own lmax, lmin on
+    for nm in ("init_adaptive_combi_scheme", "init_full_grid"):
+        fi = cs.methods[nm]
+        tm = Terms(fi.node, max_depth=0)
+        has = any(isinstance(st, ast.Assert) and tm.term(st.test) == ("cmp", "LtE", ("n", "lmin"), ("n", "lmax")) for st in fi.node.body)
+        ctx.check(has, "C01.D7", R.key_of(fi, "asserts-lmax>=lmin"), fi.loc(), "asserts lmax >= lmin", "%s no longer asserts lmax >= lmin" % nm)
+
 
 def _asserts_state(fi, callee_name):
     c = cfg_of(fi)
